@@ -162,8 +162,16 @@ class Walker(object):
 
     def feature(self, ft):
         self.define(ft)
+
+        def target_kind():
+            # the kind of object the feature presents as its data; when the data link is gone (the linked entity was
+            # deleted) the kind the file still records
+            try:
+                return type(ft.data).__name__
+            except Exception:
+                return ft._h5group.get_attr("target_type")
         return [OPEN, KIND["Feature"], self.idtok(ft), safe(lambda: ft.link_type.value)] + \
-            self.link(lambda: ft.data, "featdata") + self.times(ft) + [CLOSE]
+            self.link(lambda: ft.data, "featdata") + [safe(target_kind)] + self.times(ft) + [CLOSE]
 
     def group(self, g):
         return self.header("Group", g) + self.link(lambda: g.metadata) + self.linklist(lambda: g.data_arrays) + \
